@@ -101,7 +101,11 @@ FNBodies(f, p) == {
   <<Say(Var(p)), SInc(0, Pro, 1), Say(Var(p)), Ret(Var(p))>>,
   <<Say(Var(p)), SAssign(0, Pro, "none", <<N(42)>>), Ret(Var(p))>>,
   <<Say(Var(p)), SRock(0, Pro, <<N(8)>>), SAssign(0, Idx(Pro, S("key")), "none", <<N(1)>>), SRoll(0, Pro, Var("got")), Ret(Var(p))>>,
-  <<SIf(0, Lt(Var(p), N(2)), <<Put(PlusE(Var(p), N(1)), "t"), Say(Call(f, <<Var("t")>>))>>, FALSE, <<>>), Say(Var(p)), SInc(0, Pro, 10), Ret(Var(p))>>
+  <<SIf(0, Lt(Var(p), N(2)), <<Put(PlusE(Var(p), N(1)), "t"), Say(Call(f, <<Var("t")>>))>>, FALSE, <<>>), Say(Var(p)), SInc(0, Pro, 10), Ret(Var(p))>>,
+  \* the pronoun at function entry, before the body names anything: the caller's last-named variable, looked up innermost first
+  \* (so it is the parameter when the caller's variable has the parameter's name)
+  <<SInc(0, Pro, 1), Ret(Var(p))>>,
+  <<Say(Pro), Ret(Pro)>>
 }
 FNMains(f) == {
   <<Put(N(1), "x"), Put(Call(f, <<Var("x")>>), "r"), Say(Var("r")), Say(Var("x"))>>,
@@ -117,7 +121,10 @@ FNMains(f) == {
   <<Put(N(1), "v"), Say(Call("v", <<N(1)>>))>>,
   <<Say(Var("nope"))>>,
   <<Say(Var(f))>>,
-  <<Put(N(2), "x"), SIf(0, Lit(Bool(TRUE)), <<Put(Call(f, <<Var("x")>>), "t"), Say(Var("t"))>>, FALSE, <<>>), Say(Var("t"))>>
+  <<Put(N(2), "x"), SIf(0, Lit(Bool(TRUE)), <<Put(Call(f, <<Var("x")>>), "t"), Say(Var("t"))>>, FALSE, <<>>), Say(Var("t"))>>,
+  \* the caller's variable has the parameter's name
+  <<Put(N(1), "p"), Put(Call(f, <<Var("p")>>), "r"), Say(Var("r")), Say(Var("p"))>>,
+  <<Put(N(1), "p"), Put(N(5), "x"), Put(Call(f, <<PlusE(Var("x"), Var("p"))>>), "r"), Say(Var("r")), Say(Var("p")), Say(Var("x"))>>
 }
 FN2 == {  \* two parameters: binding order, left-to-right evaluation, by-value, duplicates, shadowing of the function's own name
   << <<SFunc(0, "pair", <<"a", "b">>, <<Ret(Bin("minus", Var("a"), <<Var("b")>>))>>)>>,
@@ -132,6 +139,19 @@ FN2 == {  \* two parameters: binding order, left-to-right evaluation, by-value, 
                                          Ret(Call("gcd", <<Var("nn"), Var("d")>>))>>)>>,
      <<Say(Call("gcd", <<N(4), N(2)>>))>> >>,
   << <<SFunc(0, "ff", <<"a">>, <<Ret(Var("a"))>>)>>, <<SFunc(0, "ff", <<"b">>, <<Ret(N(0))>>)>> >>,
+  \* a name is looked up innermost first whatever it is looked up for: a parameter or local variable that has the name of a
+  \* function defined further out hides it, so calling that name is calling a non-function
+  << <<SFunc(0, "dbl", <<"a">>, <<Ret(PlusE(Var("a"), Var("a")))>>)>>,
+     <<SFunc(0, "app", <<"dbl", "b">>, <<Ret(Call("dbl", <<Var("b")>>))>>)>>,
+     <<Say(Call("dbl", <<N(2)>>)), Say(Call("app", <<N(1), N(4)>>)), SayS("unreachable")>> >>,
+  << <<SFunc(0, "dbl", <<"a">>, <<Ret(PlusE(Var("a"), Var("a")))>>)>>,
+     <<SFunc(0, "loc", <<"b">>, <<Put(N(1), "dbl"), Say(Var("dbl")), Ret(Call("dbl", <<Var("b")>>))>>)>>,
+     <<Say(Call("loc", <<N(4)>>)), SayS("unreachable")>> >>,
+  << <<SFunc(0, "dbl", <<"a">>, <<Ret(PlusE(Var("a"), Var("a")))>>)>>,
+     <<SIf(0, Lit(Bool(TRUE)), <<Put(N(1), "dbl"), Say(Call("dbl", <<N(3)>>))>>, FALSE, <<>>), SayS("unreachable")>> >>,
+  \* ... and the other way round: a function defined in an inner scope hides a variable of that name for reading
+  << <<Put(N(5), "v")>>,
+     <<SIf(0, Lit(Bool(TRUE)), <<SFunc(0, "v", <<"a">>, <<Ret(Var("a"))>>), Say(Call("v", <<N(1)>>)), Say(Var("v"))>>, FALSE, <<>>), SayS("unreachable")>> >>,
   << <<SFunc(0, "ff", <<"a">>, <<Put(N(1), "ff"), Ret(Var("ff"))>>)>>, <<Say(Call("ff", <<N(0)>>)), Say(Call("ff", <<N(0)>>))>> >>,
   << <<SIf(0, Lit(Bool(TRUE)), <<SFunc(0, "inner", <<"a">>, <<Ret(Var("a"))>>), Say(Call("inner", <<N(1)>>))>>, FALSE, <<>>)>>,
      <<Say(Call("inner", <<N(2)>>))>> >>,
